@@ -73,6 +73,8 @@ def sink_rules(rep, prog):
             flagc = cnd
             break
     if flagc is None:
+        if for_else_scan(rep, S, f, q, r, lits):
+            return
         rep.unk("RAISE.iff", fwhere(f, r.node), "the ValueError is not raised on a flag left by the scan for a sink (`if not found: raise`): not read")
         return
     scan, flag = flagc[1], flagc[2]
@@ -135,7 +137,51 @@ def sink_rules(rep, prog):
                   "some remaining nodes are never tried as sinks: " + "; ".join(why))
     if Pn is None:
         return
-    muP = mu(Pn)
+    sink_condition(rep, f, lp, found_next, mui, mu(Pn))
+
+
+def for_else_scan(rep, S, f, q, r, lits):
+    """the scan written as `for i in range(len(P)): ... if <admissible>: ...; break` with the ValueError in the loop's else suite -> True when read"""
+    import ast as _ast
+    cands = []
+    for k, v in S.loopinfo.items():
+        if v["func"] != q or v["test"] is not None or len(v["breaks"]) != 1:
+            continue
+        node = v["node"]
+        if isinstance(node, _ast.For) and any(x is r.node for st_ in node.orelse for x in _ast.walk(st_)):
+            cands.append((k, v))
+    if len(cands) != 1:
+        return False
+    scan, lp = cands[0]
+    outer = [(k, v) for k, v in S.loopinfo.items() if v["func"] == q and v["test"] is not None]
+    extra = ["%s is %s" % (fmt(c)[:60], pl) for c, pl in lits if not any((c, pl) in literals([(v["test"], True)]) for _, v in outer)]
+    rep.check("RAISE.iff", not extra, fwhere(f, r.node), "ValueError exactly when the scan over the remaining nodes ends without break (for / else)",
+              "the ValueError needs more than a failed scan: it is raised only if also " + "; ".join(extra))
+    it = lp["iter"]
+    names = [n_ for n_, v_ in lp["init"].items() if it == ("ext", "range", (("ext", "len", (v_,), ()),), ())]
+    if len(names) != 1:
+        if it[0] == "ext" and it[1] == "range" and any(isinstance(x, tuple) and len(x) == 4 and x[0] == "ext" and x[1] == "len" and x[2] and x[2][0] in lp["init"].values() for x in walk(it)):
+            rep.check("SCAN.complete", False, fwhere(f, lp["node"]), "", "some remaining nodes are never tried as sinks: the scan runs over %s" % fmt(it)[:60])
+        else:
+            rep.unk("SCAN.complete", fwhere(f, lp["node"]), "the scan does not run over range(len(P)) of the remaining graph: not read")
+        return True
+    Pn = names[0]
+    rep.ok("SCAN.complete", fwhere(f, lp["node"]), "every remaining node is tried: for i in range(len(P)), left at the first admissible node")
+    benv = lp["breaks"][0]
+    bpath = literals(list(benv.get("$path", ())))
+    own = [(c, pl) for c, pl in bpath if not any((c, pl) in literals([(v["test"], True)]) for _, v in outer)]
+    if len(benv.get("$path", ())) == 0 or not own:
+        rep.unk("SINK.childless", fwhere(f, lp["node"]), "the condition under which the scan is left is not read")
+        return True
+    raw = [cp for cp in benv.get("$path", ()) if not any(cp[0] == v["test"] for _, v in outer)]
+    if len(raw) != 1 or raw[0][1] is not True:
+        rep.unk("SINK.childless", fwhere(f, lp["node"]), "the scan is left under %d nested conditions: not read" % len(raw))
+        return True
+    sink_condition(rep, f, lp, raw[0][0], ("elem", it), ("mu", scan, Pn))
+    return True
+
+
+def sink_condition(rep, f, lp, found_next, mui, muP):
     # ---- the admissibility condition
     cs = conjuncts(found_next)
     if found_next[0] == "bool" and found_next[1] == "or":
